@@ -147,6 +147,9 @@ var c18TagForms = []struct {
 	{`avp:"%s,omitempty" json:"x"`, true},
 	{`json:"x,omitempty" avp:"%s"`, false},
 	{`json:"x" avp:"%s,omitempty"`, true},
+	{`avp:"%s" json:"x,omitempty"`, false},
+	{`avp:"%s" json:"-" xml:"x,attr,omitempty"`, false},
+	{`json:"x,omitempty" avp:"%s,omitempty"`, true},
 }
 
 func (c C18Case) Desc() string {
@@ -687,7 +690,7 @@ func runC18(ctx *ev.Ctx) {
 			}
 		}
 	}
-	ctx.Rule = "struct types built with reflect.StructOf: one field for each of 21 dictionary AVPs (including a vendor-specific AVP whose must attribute does not list V and a vendor-less one whose must does) (every scalar data type, a vendor-specific AVP, Float32/64, IPv4/6, IPFilterRule, QoSFilterRule from a generated dictionary) x each Go holder type (native scalar, datatype type, net.IP, []byte, time.Time) x wrapper {T, *T, []T, []*T} x six tag forms (plain, omitempty, each with a second key before/after) x values {boundary atoms; nil pointer; nil, empty, 1-, 2- and 4-element slices}; plus static shapes: nested struct, pointer to struct, slice of structs with omitempty members, slice of pointers, anonymous embedded struct (first, after a tagged field, in the middle), group in group, AVP / *AVP / []*AVP fields. Oracle: the AVP bytes Marshal produces equal the AVPs built by hand from the reference dictionary entry (code, vendor id, M from must, V from vendor, typed value); Unmarshal directly and after Serialize+ReadMessage reproduces the field values (nil == empty for slices, times by second, floats by bits)."
+	ctx.Rule = "struct types built with reflect.StructOf: one field for each of 21 dictionary AVPs (including a vendor-specific AVP whose must attribute does not list V and a vendor-less one whose must does) (every scalar data type, a vendor-specific AVP, Float32/64, IPv4/6, IPFilterRule, QoSFilterRule from a generated dictionary) x each Go holder type (native scalar, datatype type, net.IP, []byte, time.Time) x wrapper {T, *T, []T, []*T} x nine tag forms (plain, omitempty, each with a second key before/after, other keys carrying their own ,omitempty option before/after) x values {boundary atoms; nil pointer; nil, empty, 1-, 2- and 4-element slices}; plus static shapes: nested struct, pointer to struct, slice of structs with omitempty members, slice of pointers, anonymous embedded struct (first, after a tagged field, in the middle), group in group, AVP / *AVP / []*AVP fields. Oracle: the AVP bytes Marshal produces equal the AVPs built by hand from the reference dictionary entry (code, vendor id, M from must, V from vendor, typed value); Unmarshal directly and after Serialize+ReadMessage reproduces the field values (nil == empty for slices, times by second, floats by bits)."
 	ctx.Assume = []string{"holder types are those for which the reflect code has a conversion path (AssignableTo / ConvertibleTo); Address holders carry IPv4 / IPv6 only"}
 }
 
